@@ -124,8 +124,14 @@ pub static INTEG_LIMIT: std::sync::atomic::AtomicU64 = std::sync::atomic::Atomic
 
 pub struct ToyHeaderKey;
 impl HeaderKey for ToyHeaderKey {
-    fn decrypt(&self, _pn_offset: usize, _packet: &mut [u8]) {}
-    fn encrypt(&self, _pn_offset: usize, _packet: &mut [u8]) {}
+    // no protection is applied, but like every real provider this one reads the sample its caller
+    // has to guarantee: 16 bytes starting 4 bytes behind the packet number offset
+    fn decrypt(&self, pn_offset: usize, packet: &mut [u8]) {
+        let _sample = &packet[pn_offset + 4..pn_offset + 4 + 16];
+    }
+    fn encrypt(&self, pn_offset: usize, packet: &mut [u8]) {
+        let _sample = &packet[pn_offset + 4..pn_offset + 4 + 16];
+    }
     fn sample_size(&self) -> usize {
         16
     }
